@@ -11,7 +11,7 @@ Requests
   layout_smin     <tree>                                ->  <n>                                                | unmodelled
   layout_text_spec <text> <width>                       ->  <min>,<max>,<wrapped 0|1|E>   (Text.__rich_measure__ and "rendered at w, is any paragraph divided?")
 
-  flags = frames variant bitmask (as Drv/C08) , the seven Text/Wrap flags (as Drv/C02) , the three table flags   e.g. `12,0000000,000`
+  flags = frames variant bitmask (as Drv/C08) , the Text/Wrap flags (as Drv/C02 `decWVariant?`) , the three table flags   e.g. `12,00000001,000`
   env   = consoleWidth,ascii,legacy,safe,nocolor,colorsystem
   opts  = justify overflow nowrap (one character each, as Drv/C02: N d l c r f / N f c e i / N 0 1) joined by `,`
   tree  = prefix tokens joined by `|` (see `parseR`); a text token is the wire format of Drv/C02 (`decText?`)
